@@ -51,6 +51,8 @@ def _explicit_extreme_loop(gf: ast.FunctionDef, rets, fn_name: str) -> bool:
     """best = None; for s in self._strategies: if best is None or s.runtime < best.runtime: best = s; return best  (`>` for max):
     the comparisons min()/max() make, first of ties kept."""
     loops = [l for l in ast.walk(gf) if isinstance(l, ast.For)]
+    if len(loops) == 1 and norm(loops[0].iter) == "self._strategies[1:]" and isinstance(loops[0].target, ast.Name) and not loops[0].orelse:
+        return _explicit_extreme_loop_from_first(gf, loops[0], rets, fn_name)
     if len(loops) != 1 or norm(loops[0].iter) != "self._strategies" or not isinstance(loops[0].target, ast.Name) or loops[0].orelse:
         return False
     lp = loops[0]
@@ -75,6 +77,43 @@ def _explicit_extreme_loop(gf: ast.FunctionDef, rets, fn_name: str) -> bool:
              and isinstance(a.value, ast.Constant) and a.value.value is None]
     return strict and bool(inits) and all(norm(x.value) == best for x in rets) \
         and not any(isinstance(x, (ast.Break, ast.Continue)) for x in ast.walk(lp))
+
+
+def _explicit_extreme_loop_from_first(gf, lp, rets, fn_name: str) -> bool:
+    """best = self._strategies[0]; key = best.runtime; for s in self._strategies[1:]: if s.runtime < key: best, key = s, s.runtime; return best"""
+    sv = lp.target.id
+    assigns = {}
+    for a in gf.body:
+        if isinstance(a, ast.Assign) and len(a.targets) == 1 and isinstance(a.targets[0], ast.Name):
+            assigns.setdefault(a.targets[0].id, norm(a.value))
+    best = next((k for k, v in assigns.items() if v == "self._strategies[0]"), None)
+    if best is None:
+        return False
+    key = next((k for k, v in assigns.items() if v == f"{best}.runtime"), None)
+    if len(lp.body) != 1 or not isinstance(lp.body[0], ast.If) or lp.body[0].orelse:
+        return False
+    iff = lp.body[0]
+    c = iff.test
+    if not (isinstance(c, ast.Compare) and len(c.ops) == 1):
+        return False
+    want_lt = fn_name == "min"
+    cur = key if key is not None else f"{best}.runtime"
+    l, r, op = norm(c.left), norm(c.comparators[0]), type(c.ops[0])
+    strict = (l == f"{sv}.runtime" and r == cur and op is (ast.Lt if want_lt else ast.Gt)) or (l == cur and r == f"{sv}.runtime" and op is (ast.Gt if want_lt else ast.Lt))
+    # the update keeps best and its key together
+    stores = {}
+    for a in iff.body:
+        if isinstance(a, ast.Assign) and len(a.targets) == 1:
+            t, v = a.targets[0], a.value
+            if isinstance(t, ast.Tuple) and isinstance(v, ast.Tuple) and len(t.elts) == len(v.elts):
+                for tt, vv in zip(t.elts, v.elts):
+                    stores[norm(tt)] = norm(vv)
+            else:
+                stores[norm(t)] = norm(v)
+        else:
+            return False
+    upd = stores.get(best) == sv and (key is None or stores.get(key) == f"{sv}.runtime") and set(stores) <= {best, key}
+    return bool(strict and upd and all(norm(x.value) == best for x in rets) and not any(isinstance(x, (ast.Break, ast.Continue)) for x in ast.walk(lp)))
 
 
 def strategy_extremes(ctx: Context, rule: str) -> None:
